@@ -104,6 +104,8 @@ func (p *VarHeaderPostprocessor) substr(args []string) (func(in string) string, 
 	}
 	return func(in string) string {
 		l := len(in)
+		// Work with copies: modifier is shared by all shoots and instances.
+		start, end := start, end
 		if start < 0 {
 			start = l + start
 		}
@@ -115,6 +117,16 @@ func (p *VarHeaderPostprocessor) substr(args []string) (func(in string) string, 
 		}
 		if start > end {
 			start, end = end, start
+		}
+		// Header value can be shorter than requested substring.
+		if start < 0 {
+			start = 0
+		}
+		if end > l {
+			end = l
+		}
+		if start > end {
+			start = end
 		}
 		return in[start:end]
 	}, nil
